@@ -319,3 +319,146 @@ fn c12_status_table() {
         assert!(r == sp::spec_status(GEN_ORACLE, b.checkers.0 != 0, p.halfmove));
     }
 }
+
+// =====================================================================================================
+// Per-function contracts (quick tier of C01 / C16): each add_*_legals function called directly with the
+// ghost listener.  Contract: returns true exactly when the listener aborted; without abort the query move
+// is delivered exactly once iff it is legal, its origin is in the mask AND its origin holds the piece kind
+// this function is responsible for (never delivered otherwise); per-batch contract inside the listener.
+// The composition (dispatch on the number of checkers, the six calls in sequence) is the whole-path family
+// c01_gen_* (thorough tier).
+fn fn_setup(min_checkers: u32, max_checkers: u32) -> Board {
+    let p = any_inv_pos();
+    let q = mv_of(any_move());
+    let mask: u64 = kani::any();
+    let plan_a: u64 = kani::any();
+    let plan_b: u64 = kani::any();
+    let n = sp::spec_checkers(&p, p.stm).count_ones();
+    kani::assume(n >= min_checkers && n <= max_checkers);
+    unsafe {
+        P0 = p; Q = q; MASK = mask; PLAN_A = plan_a; PLAN_B = plan_b;
+        QLEGAL = sp::spec_legal(&p, q) && (mask >> q.from) & 1 == 1;
+        SEEN = 0; NB_FROM = 0; CALLS = 0; ABORTED = false; MODE = 0;
+    }
+    mk_board(&p)
+}
+fn fn_post(kind: u8, r: bool) {
+    unsafe {
+        assert!(r == ABORTED);
+        let mine = (P0.colors[P0.stm as usize] >> Q.from) & 1 == 1 && P0.piece_at(Q.from) == kind;
+        if !ABORTED {
+            assert!(SEEN == (QLEGAL && mine) as u32);
+        } else {
+            assert!(SEEN <= (QLEGAL && mine) as u32);
+        }
+        let ep_capable = P0.piece_at(Q.from) == sp::P as u8
+            && sp::pawn_attacks(sp::bit(Q.from), P0.stm) & P0.ep_bb() != 0;
+        assert!(NB_FROM <= 1 + ep_capable as u32);
+    }
+}
+macro_rules! fn_family {
+    ($($name:ident: $kind:expr, $lo:expr, $hi:expr, |$b:ident, $m:ident, $l:ident| $call:expr;)*) => {$(
+        board_proof! {
+            #[kani::unwind(9)]
+            fn $name() {
+                let $b = fn_setup($lo, $hi);
+                cut_on();
+                let $m = BitBoard(unsafe { MASK });
+                let mut listener = listen;
+                let $l = &mut listener;
+                let r = $call;
+                fn_post($kind, r);
+            }
+        }
+    )*};
+}
+fn_family! {
+    c01_fn_pawn_0: 0, 0, 0, |b, m, l| b.add_pawn_legals::<_, false>(m, l);
+    c01_fn_pawn_1: 0, 1, 1, |b, m, l| b.add_pawn_legals::<_, true>(m, l);
+    c01_fn_knight_0: 1, 0, 0, |b, m, l| b.add_knight_legals::<_, false>(m, l);
+    c01_fn_knight_1: 1, 1, 1, |b, m, l| b.add_knight_legals::<_, true>(m, l);
+    c01_fn_bishop_0: 2, 0, 0, |b, m, l| b.add_slider_legals::<slider::Bishop, _, false>(m, l);
+    c01_fn_bishop_1: 2, 1, 1, |b, m, l| b.add_slider_legals::<slider::Bishop, _, true>(m, l);
+    c01_fn_rook_0: 3, 0, 0, |b, m, l| b.add_slider_legals::<slider::Rook, _, false>(m, l);
+    c01_fn_rook_1: 3, 1, 1, |b, m, l| b.add_slider_legals::<slider::Rook, _, true>(m, l);
+    c01_fn_queen_0: 4, 0, 0, |b, m, l| b.add_slider_legals::<slider::Queen, _, false>(m, l);
+    c01_fn_queen_1: 4, 1, 1, |b, m, l| b.add_slider_legals::<slider::Queen, _, true>(m, l);
+    c01_fn_king_0: 5, 0, 0, |b, m, l| b.add_king_legals::<_, false>(m, l);
+    c01_fn_king_1: 5, 1, 64, |b, m, l| b.add_king_legals::<_, true>(m, l);
+}
+
+// O-C01.dispatch: generate_moves_for against RECORDING CONTRACT STUBS of the six generator functions:
+// with n = number of checkers, it calls (n = 0) every function once with IN_CHECK = false, (n = 1) every
+// function once with IN_CHECK = true, (n >= 2) only the king function with IN_CHECK = true — always with
+// the caller's mask, stopping at the first call that reports an abort and returning true exactly then.
+pub(crate) static mut D_CALLED: u8 = 0; // bit k: the function for kind k was called
+pub(crate) static mut D_BAD: bool = false; // duplicate call, wrong mask, wrong IN_CHECK, or call after abort
+pub(crate) static mut D_ABORT_ON: u8 = 0; // oracle: the functions whose bit is set report an abort
+pub(crate) static mut D_ABORTED: bool = false;
+pub(crate) static mut D_MASK: u64 = 0;
+pub(crate) static mut D_IN_CHECK: bool = false;
+fn d_record(kind: u8, in_check: bool, mask: BitBoard) -> bool {
+    unsafe {
+        if D_ABORTED || (D_CALLED >> kind) & 1 == 1 || mask.0 != D_MASK || in_check != D_IN_CHECK { D_BAD = true; }
+        D_CALLED |= 1 << kind;
+        let abort = (D_ABORT_ON >> kind) & 1 == 1;
+        if abort { D_ABORTED = true; }
+        abort
+    }
+}
+pub(crate) fn d_pawn<F: FnMut(PieceMoves) -> bool, const IN_CHECK: bool>(_b: &Board, mask: BitBoard, _l: &mut F) -> bool { d_record(0, IN_CHECK, mask) }
+pub(crate) fn d_knight<F: FnMut(PieceMoves) -> bool, const IN_CHECK: bool>(_b: &Board, mask: BitBoard, _l: &mut F) -> bool { d_record(1, IN_CHECK, mask) }
+pub(crate) fn d_slider<P: slider::SlidingPiece, F: FnMut(PieceMoves) -> bool, const IN_CHECK: bool>(_b: &Board, mask: BitBoard, _l: &mut F) -> bool { d_record(P::PIECE as u8, IN_CHECK, mask) }
+pub(crate) fn d_king<F: FnMut(PieceMoves) -> bool, const IN_CHECK: bool>(_b: &Board, mask: BitBoard, _l: &mut F) -> bool { d_record(5, IN_CHECK, mask) }
+
+#[kani::proof]
+#[kani::stub(crate::board::Board::add_pawn_legals, d_pawn)]
+#[kani::stub(crate::board::Board::add_knight_legals, d_knight)]
+#[kani::stub(crate::board::Board::add_slider_legals, d_slider)]
+#[kani::stub(crate::board::Board::add_king_legals, d_king)]
+fn c01_dispatch() {
+    let p = any_pos_raw();
+    let mut b = mk_board(&p);
+    b.checkers = BitBoard(kani::any());
+    let mask: u64 = kani::any();
+    let n = b.checkers.0.count_ones();
+    unsafe {
+        D_CALLED = 0; D_BAD = false; D_ABORTED = false;
+        D_ABORT_ON = kani::any();
+        D_MASK = mask;
+        D_IN_CHECK = n >= 1;
+    }
+    let r = b.generate_moves_for(BitBoard(mask), |_| false);
+    // generate_moves is the same with the full mask
+    unsafe {
+        assert!(!D_BAD);
+        assert!(r == D_ABORTED);
+        let want: u8 = if n >= 2 { 1 << 5 } else { 0b111111 };
+        assert!(D_CALLED & !want == 0);
+        if !r { assert!(D_CALLED == want); }
+    }
+}
+#[kani::proof]
+#[kani::stub(crate::board::Board::add_pawn_legals, d_pawn)]
+#[kani::stub(crate::board::Board::add_knight_legals, d_knight)]
+#[kani::stub(crate::board::Board::add_slider_legals, d_slider)]
+#[kani::stub(crate::board::Board::add_king_legals, d_king)]
+fn c01_dispatch_full_mask() {
+    let p = any_pos_raw();
+    let mut b = mk_board(&p);
+    b.checkers = BitBoard(kani::any());
+    let n = b.checkers.0.count_ones();
+    unsafe {
+        D_CALLED = 0; D_BAD = false; D_ABORTED = false;
+        D_ABORT_ON = kani::any();
+        D_MASK = !0;
+        D_IN_CHECK = n >= 1;
+    }
+    let r = b.generate_moves(|_| false);
+    unsafe {
+        assert!(!D_BAD && r == D_ABORTED);
+        let want: u8 = if n >= 2 { 1 << 5 } else { 0b111111 };
+        assert!(D_CALLED & !want == 0);
+        if !r { assert!(D_CALLED == want); }
+    }
+}
